@@ -6,6 +6,8 @@ package queue
 import (
 	"slices"
 	"sync"
+
+	"github.com/apmckinlay/gsuneido/util/verif"
 )
 
 const bufSize = 8
@@ -48,6 +50,9 @@ func (pq *PriorityQueue) Put(priority, tran int, value any) {
 	}
 
 	pq.items = append(pq.items, element{priority, tran, value})
+	if verif.On {
+		verif.Event("PQPut", "q", pq, "pri", priority, "tran", tran, "val", value, "len", len(pq.items))
+	}
 	pq.notEmpty.Signal()
 }
 
@@ -73,6 +78,9 @@ func (pq *PriorityQueue) Get() any {
 	}
 
 	result := pq.items[bestIdx].value
+	if verif.On {
+		verif.Event("PQGet", "q", pq, "pri", pq.items[bestIdx].priority, "tran", pq.items[bestIdx].tran, "val", result, "idx", bestIdx, "len", len(pq.items)-1)
+	}
 	pq.items = slices.Delete(pq.items, bestIdx, bestIdx+1)
 	pq.notFull.Signal()
 
